@@ -383,6 +383,12 @@ func persistRuns(r *core.Run, name string, nRandom int, obsOnly bool) {
 	if len(segs) > 0 {
 		r.Sample(map[string]any{"case": segs[len(segs)/3].Label, "trace": core.SegTrace(segs[len(segs)/3])})
 	}
+	segSelfTest(r, "persist", "PersistTrace", "", segs, []core.Corruption{
+		{"a handler did not run", core.DropFirst(`"e":"handler"`)},
+		{"the append was attempted twice", core.DupFirst(`"e":"append"`)},
+		{"the publish was never handed to the store", core.DropFirst(`"e":"append"`)},
+		{"the record was not in the store when the publish returned", core.ReplaceFirst(`"e":"pubret"`, `"recok":true`, `"recok":false`)},
+	})
 	r.ValidateSegments(name+"-persist", "PersistTrace", "", segs, func(rej core.SegReject) *core.Segment {
 		var ev struct {
 			E    string `json:"e"`
